@@ -661,7 +661,7 @@ def _struct_unpack(e, st, args, kw, n):
     return (SV(b[0] * 16777216 + b[1] * 65536 + b[2] * 256 + b[3], 'int'),)
 
 
-@builtin('time.perf_counter')
+@builtin('time.perf_counter', 'time.time')
 def _perf_counter(e, st, args, kw, n):
     from .engine import fresh
     return SV(fresh('clock', z3.RealSort()), 'real')
